@@ -582,11 +582,11 @@ Definition digest (s : text) : N :=
 Inductive obs :=
 | ORaise (e : exn)
 | OOther                          (* raised something the model never raises *)
-| OText (len : nat) (dg : N).
+| OText (len : N) (dg : N).
 
 Definition obs_match (r : result text) (o : obs) : bool :=
   match r, o with
-  | Ok s, OText len dg => (length s =? len) && (digest s =? dg)%N
+  | Ok s, OText len dg => (N.of_nat (length s) =? len)%N && (digest s =? dg)%N
   | Raise ValueError, ORaise ValueError => true
   | Raise TypeError, ORaise TypeError => true
   | Raise UnicodeDecodeError, ORaise UnicodeDecodeError => true
